@@ -8,7 +8,9 @@ import (
 	"syscall"
 	"time"
 
+	"github.com/criyle/go-sandbox/container"
 	"github.com/criyle/go-sandbox/pkg/forkexec"
+	"github.com/criyle/go-sandbox/pkg/rlimit"
 	"github.com/criyle/go-sandbox/runner"
 	"github.com/criyle/go-sandbox/runner/ptrace"
 	"github.com/criyle/go-sandbox/runner/unshare"
@@ -259,6 +261,45 @@ func runC04(res *Result, d *Driver, tier string, seed uint64) {
 		} else if enable {
 			res.Mismatch(Mismatch{Kind: "oracle", What: "launch with allowed setgroups failed", Input: desc, Impl: fmt.Sprint(err, ws, out), Oracle: "unknown"})
 		}
+	}
+	// part B2: launches in ONE container environment, each with its own option set: what a launch asks for is what its
+	// program gets -- a filter iff this launch gave one, this launch's limits -- whatever earlier launches asked for
+	if env, err := newEnv(container.Builder{}); err == nil {
+		nl := 12
+		if tier == "thorough" {
+			nl = 200
+		}
+		var own syscall.Rlimit
+		syscall.Getrlimit(syscall.RLIMIT_NOFILE, &own)
+		var hist []string
+		for i := 0; i < nl; i++ {
+			withFilter, withLimit := rng.Chance(40), rng.Chance(40)
+			spec := RunSpec{Script: "report sec;report rlimits;exit 0"}
+			if withFilter {
+				spec.Filter = allowAll()
+			}
+			if withLimit {
+				spec.RLimits = []rlimit.RLimit{{Res: syscall.RLIMIT_NOFILE, Rlim: syscall.Rlimit{Cur: 123, Max: 456}}}
+			}
+			hist = append(hist, fmt.Sprintf("{filter=%v nofile-limit=%v}", withFilter, withLimit))
+			r, out := env.runProbe(spec, rng.Bool())
+			res.Case("container-sequence "+strings.Join(hist, " "), true, "container-sequence")
+			res.Traces++
+			wantSec := "seccomp=0"
+			if withFilter {
+				wantSec = "seccomp=2"
+			}
+			wantNofile := fmt.Sprintf("nofile=%d:%d", own.Cur, own.Max)
+			if withLimit {
+				wantNofile = "nofile=123:456"
+			}
+			if r.Status != runner.StatusNormal || !strings.Contains(out, wantSec+" ") || !strings.Contains(out, wantNofile) {
+				res.Mismatch(Mismatch{Kind: "oracle", What: "container launch: a filter is installed iff THIS launch gave one, the limits are THIS launch's (C04, histories of launches in one environment)", Input: "launches so far: " + strings.Join(hist, " "),
+					Impl: fmt.Sprintf("%v %q: %s", r.Status, r.Error, strings.TrimSpace(out)), Model: wantSec + " " + wantNofile, Oracle: "violates"})
+				break
+			}
+		}
+		env.Close()
 	}
 	// part C: the runners themselves with the "no filter" option set: a Runner without Seccomp must start the program
 	// (without a filter), not crash the caller
